@@ -3,8 +3,8 @@
 package main
 
 import (
-	"go/types"
 	"fmt"
+	"go/types"
 	"os"
 	"sort"
 	"strings"
@@ -17,7 +17,7 @@ type Ctx struct {
 	Repo *Repo
 	// Raw: the tree as written (Repo is the helper-inlined view of it); rules that judge every function on its own
 	// (error discipline) use this one
-	Raw *Repo
+	Raw  *Repo
 	Rep  *Report
 	Tier string
 	R    *Sweeper
